@@ -9,6 +9,7 @@
 //! 2 harness error.
 
 mod c18;
+mod c19;
 mod core;
 mod rng;
 
@@ -61,6 +62,7 @@ fn config(args: &[String]) -> BatchConfig {
 fn with_world<R>(id: &str, f: impl FnOnce(&dyn Dispatch) -> R) -> Option<R> {
     match id {
         "C18" => Some(f(&c18::C18::new())),
+        "C19" => Some(f(&c19::C19::new())),
         _ => None,
     }
 }
